@@ -101,7 +101,9 @@ static void run_decoder(void)
 {
 	vbi_decoder *vbi;
 	double t = 1000.0;
-	int i, p;
+	int i, p, trace_page = -1;
+	if (vf_verbose && getenv("C08_TRACE_PAGE")) trace_page = atoi(getenv("C08_TRACE_PAGE")) - 1;
+	if (trace_page > 7) trace_page = -1;
 	n_snaps = 0;
 	memset(ev_count, 0, sizeof ev_count);
 	ev_other = 0;
@@ -121,6 +123,23 @@ static void run_decoder(void)
 		vbi_decode(vbi, sl, 2, t);
 		t += 1001.0 / 30000.0;
 		if (frames[i].ck) take_snapshot(vbi, i);
+		if (trace_page >= 0) {
+			/* triage aid (-v and C08_TRACE_PAGE=1..8): rows of that page whenever they change */
+			static struct dcell cur[M_ROWS][M_COLS], old[M_ROWS][M_COLS];
+			int r;
+			if (i == 0) memset(old, 0, sizeof old);
+			if (fetch_page(vbi, trace_page, cur) == 1)
+				for (r = 0; r < M_ROWS; r++)
+					if (memcmp(cur[r], old[r], sizeof cur[r])) {
+						char b[40];
+						int c;
+						for (c = 0; c < M_COLS; c++)
+							b[c] = cur[r][c].op == VBI_TRANSPARENT_SPACE ? ' ' : cur[r][c].uc == 0x20 ? '_' : (cur[r][c].uc > 0x20 && cur[r][c].uc < 0x7f) ? (char)cur[r][c].uc : '#';
+						b[M_COLS] = 0;
+						vf_log("  trace: after frame %d page %d row %2d [%s]\n", i, trace_page + 1, r + 1, b);
+					}
+			memcpy(old, cur, sizeof old);
+		}
 	}
 	vf_phase("vbi_decoder_delete");
 	vbi_decoder_delete(vbi);
@@ -862,6 +881,12 @@ static void selftest_vectors(void)
 	st_run("RU3 PAC15,0 'one' CR 'two' PAC4,c0 !", QBIT(Q_PAC_ROLLUP_ERASES)); st_expect_row("Q-PAC-rollup-erases", 0, 3, "");
 	st_run("RCL PAC14,0 'one' EOC RCL PAC15,0 'two' EOC _ EOC !", QBIT(Q_EOC_ERASES_HIDDEN)); st_expect_row("Q-EOC-erases-hidden", 0, 14, "");
 	st_run("TR 'a' CR 'b' TR 'c' !", QBIT(Q_TR_NO_CLEAR)); st_expect_row("Q-TR-no-clear", 4, 2, "b");
+	/* Q-line-buffer-row-copy: the row is copied at a space and at a solid block 0x7F, never in between (session 4);
+	 * TR and EOC reach CC2 here without caption.c flushing its pending word */
+	st_run("@2 RU2 PAC15,0 'ab\x7f' 'cd' @1 TR 'x ' @2 EOC PAC1,0 EOC !", 0); st_expect_row("solid block strict", 1, 15, "ab#cd");
+	st_run("@2 RU2 PAC15,0 'ab\x7f' 'cd' @1 TR 'x ' @2 EOC PAC1,0 EOC !", QBIT(Q_LINE_BUFFER)); st_expect_row("solid block copies the row", 1, 15, "ab#");
+	st_run("@2 RU2 PAC15,0 'ab ' 'cd' @1 TR 'x ' @2 EOC PAC1,0 EOC !", QBIT(Q_LINE_BUFFER)); st_expect_row("space copies the row", 1, 15, "ab_");
+	st_run("@2 RU2 PAC15,0 'ab-' 'cd' @1 TR 'x ' @2 EOC PAC1,0 EOC !", QBIT(Q_LINE_BUFFER)); st_expect_row("other characters do not", 1, 15, "");
 }
 
 /* --- the repository's XML test streams as a corpus for the model --- */
@@ -1430,6 +1455,9 @@ static const struct { int q; const char *script; } witness[] = {
 	{ Q_MIDROW_ITALICS_WHITE,   "RDC PAC15,c1 'a' MR7 'b ' !" },
 	{ Q_STALE_SOLID_SPACE,      "RDC PAC15,0 'ab' PAC15,0 DER !" },
 	{ Q_LINE_BUFFER, "RU2 PAC15,0 'roll ' RCL PAC3,0 'pop' EOC !" },
+	/* the row copy happens at spaces and at the solid block 0x7F (caption.c: (unicode & 0x7F) == 0x20 is true of U+25A0):
+	 * 'cd' never reaches the displayed page because TR / EOC arrive while field 1 addresses another channel */
+	{ Q_LINE_BUFFER, "@2 RU2 PAC15,0 'ab\x7f' 'cd' @1 TR 'x ' @2 EOC PAC1,0 EOC !" },
 };
 #define N_WITNESS ((int)(sizeof witness / sizeof witness[0]))
 
@@ -1483,6 +1511,34 @@ static int run_witness(long idx)
 	return 1;
 }
 
+/* triage aid (no job uses it): --mode script decodes the script in the environment variable C08_SCRIPT
+ * (notation above) and judges it like a generated history; with -v the decoder's page of every channel
+ * that is not empty is printed at every checkpoint. */
+static int run_script(void)
+{
+	const char *s = getenv("C08_SCRIPT");
+	unsigned S;
+	if (!s || !script_build(s)) { vf_fail("harness:C08:script", "C08_SCRIPT missing or not assembled"); return 0; }
+	snprintf(case_desc, sizeof case_desc, "script: %.230s", s);
+	vf_sample("%s", case_desc);
+	run_decoder();
+	if (vf_verbose) {
+		int k, p, r;
+		for (k = 0; k < n_snaps; k++)
+			for (p = 0; p < 8; p++)
+				for (r = 0; r < M_ROWS; r++) {
+					char b[40];
+					int c, any = 0;
+					dump_dec_row(snaps[k].pg[p][r], b);
+					for (c = 0; c < M_COLS; c++) if (b[c] != (p >= 4 ? '_' : ' ')) any = 1;
+					if (any) vf_log("  ck %d frame %d page %d row %2d [%s]\n", k, snaps[k].frame, p + 1, r + 1, b);
+				}
+	}
+	S = judge();
+	vf_log("  script verdict: quirk set 0x%x\n", S);
+	return 1;
+}
+
 static int run_case(struct vf_rng *r, long idx)
 {
 	int nt;
@@ -1490,6 +1546,7 @@ static int run_case(struct vf_rng *r, long idx)
 	pages_compared = pages_skipped_unflushed = pages_skipped_poisoned = 0;
 	cells_compared = 0;
 	if (!strcmp(vf_mode, "witness")) nt = run_witness(idx);
+	else if (!strcmp(vf_mode, "script")) nt = run_script();
 	else nt = run_generated(r);
 	vf_count("pages_compared", pages_compared);
 	vf_count("pages_not_compared_pending_word", pages_skipped_unflushed);
